@@ -7,7 +7,11 @@ fn main() {
     let c: u8 = a[1].parse().expect("code");
     let r = ErrorMessages::from_u8(c);
     println!("ErrorMessages::from_u8({c} = {c:#04x}) = {r:?}; agrees with spec/tables/errcodes.json: {}", zvt_kani_codes::table::agrees(c, &r));
-    let ok = zvt_kani_codes::check_code(c);
+    let msg = a.get(2).map(|x| x == "msg").unwrap_or(false);
+    if msg {
+        println!("Display of that variant: {:?}; message of code {c:#04x} in the frozen table: {:?}", r.as_ref().map(|e| e.to_string()), zvt_kani_codes::table::message_of(c));
+    }
+    let ok = if msg { zvt_kani_codes::check_message_fingerprint(c) && zvt_kani_codes::check_message(c) } else { zvt_kani_codes::check_code(c) };
     println!("{}", if ok { "HOLDS" } else { "FAILS" });
     std::process::exit(if ok { 0 } else { 1 });
 }
